@@ -878,13 +878,15 @@ fn co64<S: Fl>(co: &[S; 4]) -> [f64; 4] {
     [co[0].f(), co[1].f(), co[2].f(), co[3].f()]
 }
 
-/// class of a cubic × line query
+/// class of a cubic × line query: lyon (since fix ba950a71) first replaces the line's vector by
+/// the unit direction; the polynomial handed to the root finder is recomputed here the same way
 fn cubicline_class<S: Fl>(c: &CubicBezierSegment<S>, l: &Line<S>) -> (&'static str, f64) {
-    if l.vector.square_length() < <S as lyon_geom::Scalar>::EPSILON {
-        // lyon returns nothing for a line whose direction vector is shorter than sqrt(EPSILON)
-        return ("short-line-vector", 0.0);
+    let len = l.vector.length();
+    if len == S::of(0.0) || !len.f().is_finite() {
+        return ("generic", 0.0);
     }
-    cubic_class(co64(&cubic_line_coeffs(c, l)), S::BITS)
+    let unit = Line { point: l.point, vector: l.vector / len };
+    cubic_class(co64(&cubic_line_coeffs(c, &unit)), S::BITS)
 }
 
 /// "within rounding" for a root-finder based query: 512 ulps of the quantities involved
